@@ -396,16 +396,20 @@ class E3Check:
         d = os.path.join(VERIF, "corpus", self.prop)
         if not os.path.isdir(d):
             return 0
-        exe = self.build("hook")
+        modname = self.__class__.__module__.split(".")[-1]
+        variant = "hook-asan" if self.variant_for(0, "F1") == "hook-asan" else "hook"
+        exe = self.build(variant)
         cpu, lock = reserve_cpu()
         cpu = cpu if cpu is not None else 2
-        runner = e3.Runner(exe, os.path.join(SHM_ROOT, "%s-corpus-%d" % (self.prop, os.getpid())), cpu, os.cpu_count())
+        runner = e3.Runner(exe, os.path.join(SHM_ROOT, "%s-corpus-%d" % (modname, os.getpid())), cpu, os.cpu_count(), asan="asan" in variant)
         n = 0
         known = core.known_for(self.prop)
         for f in sorted(os.listdir(d)):
             if not f.endswith(".json"):
                 continue
             b = json.load(open(os.path.join(d, f)))
+            if b.get("module", self.prop) != modname:
+                continue          # a property checked in several parts keeps one corpus directory: each part replays its own entries
             n += 1
             bad = self.replay_program(runner, b["program"], b.get("active_cpus", 1), 3, known)
             for k in self.last_known_hits:
